@@ -140,21 +140,22 @@ def run(ctx):
                 for threads in ([1, 2] if q else [1, 2, len(combo), 32]):
                     m = modes[k % 3] if q else None
                     for mode in ([m] if m else modes):
-                        cases.append({'combo': combo, 'threads': threads, 'mode': mode})
+                        # half of the lists write one entry as a bare host that takes its port from -p (both notations are legal in one file)
+                        cases.append({'combo': combo, 'threads': threads, 'mode': mode, 'bare': (len(cases) % len(combo)) if len(cases) % 2 else None})
 
             def do(z, c):
                 tf = os.path.join(tmp, 't%d_%d.txt' % (threading.get_ident() % 100000, int(time.time() * 1e6) % 10 ** 9))
                 with open(tf, 'w') as f:
-                    f.write('\n'.join('127.0.0.1:%d' % servers[n].port for n in c['combo']) + '\n')
+                    f.write('\n'.join(('127.0.0.1' if i == c['bare'] else '127.0.0.1:%d' % servers[n].port) for i, n in enumerate(c['combo'])) + '\n')
                 try:
-                    return z.run(c['mode'][1] + ['--skip-rate-test', '-t', '2', '--threads', str(c['threads']), '-T', tf], timeout=180)
+                    return z.run(c['mode'][1] + ([] if c['bare'] is None else ['-p', str(servers[c['combo'][c['bare']]].port)]) + ['--skip-rate-test', '-t', '2', '--threads', str(c['threads']), '-T', tf], timeout=180)
                 finally:
                     os.unlink(tf)
             results = pool.map(do, cases)
         nontriv = set()
         for c, r in zip(cases, results):
-            desc = {'op': 'cli-multi', 'combo': c['combo'], 'threads': c['threads'], 'mode': c['mode'][0]}
-            nontriv.add((c['combo'], min(c['threads'], 3), c['mode'][0]))
+            desc = {'op': 'cli-multi', 'combo': c['combo'], 'threads': c['threads'], 'mode': c['mode'][0], 'bare_entry': c['bare']}
+            nontriv.add((c['combo'], min(c['threads'], 3), c['mode'][0], c['bare']))
             mode = c['mode'][0]
             if mode == 'json':
                 try:
